@@ -689,6 +689,13 @@ static void mitm_data_run(const Plan *p, RunResult *r)
 		for (int k = 0; k < tw->o.nrecmap[f->dir]; k++)
 			if (tw->o.recmap[f->dir][k].rec == f->rec) start = (int64_t)tw->o.recmap[f->dir][k].start;
 		if (start < 0) continue;
+		{
+			/* net effect: a fault that leaves the bytes the receiver consumed for this record exactly as
+			 * they were sent (a cut byte that equals the byte sliding into its place) altered nothing */
+			const Pipe *pp = &g_conns[0].pipe[f->dir];
+			size_t ro = tw->o.recs[f->dir][f->rec].off, rl0 = tw->o.recs[f->dir][f->rec].len;
+			if (f->kind != F_EVIL && ro + rl0 <= pp->wr && ro + rl0 <= pp->sent_len && !memcmp(pp->buf + ro, pp->sent + ro, rl0)) continue;
+		}
 		if ((int64_t)o.got[f->dir] > start) {
 			size_t rl = tw->o.recs[f->dir][f->rec].len;
 			const char *rg = region_data(f, rl, (int)p->proto);
